@@ -18,6 +18,14 @@ def collect(ctx, res, want="C16"):
     res.extra["ui_frames"] = len(frames)
     res.extra["ui_frame_heights"] = sorted(heights)
     out = []
+    status = [e for e in evs if e["ev"] == "status"]
+    res.extra["status_line_scenarios"] = len(status)
+    for e in status:
+        res.case(["status", e["world"], e["scenario"], e["w"]])
+        if e["panic"]:
+            sig = {"monitor": "draw", "why": "drawing panicked or never finished", "scenario": e["scenario"].split(",")[0]}
+            path = vlib.save_replay(ctx.pid, "status-s%d" % e["sid"], e)
+            out.append((sig, path, "%s on a terminal %d columns wide: no frame was handed to the terminal (%s)" % (e["scenario"], e["w"], (e.get("what") or "")[:160])))
     for b in bad:
         e = frames[b["line"] - 1]
         if "lines" not in b["why"] and "centred" not in b["why"] and want == "C16":
